@@ -399,6 +399,21 @@ pub fn run(ctx: &mut Ctx) {
     let maxc = ctx.q(1 << 16, 2 << 20);
     ctx.explore::<(ArchiveSpec, u8)>("specs", n, &|| (genf::archive(24, maxc, true), any::<u8>()).boxed(), &|(spec, bsel): &(ArchiveSpec, u8), info: &mut Info| {
         labels(spec, info);
+        // every 8th un-prefixed spec is prefixed with a complete copy of ITSELF (an older version of the
+        // same archive in front, as self-extractors and naive "append by concatenation" produce): every
+        // offset recorded in the second copy then also points at a record of the same kind in the first
+        let mut owned;
+        let mut spec = spec;
+        if spec.prefix.is_empty() && *bsel % 8 == 3 && !spec.entries.is_empty() {
+            if let Ok(first) = build::build(spec) {
+                if first.bytes.len() < 60000 {
+                    owned = spec.clone();
+                    owned.prefix = refzip::Content::Bytes(first.bytes);
+                    spec = &owned;
+                    info.label("prefixed-with-a-copy-of-itself");
+                }
+            }
+        }
         let b = match build::build(spec) {
             Ok(b) => b,
             Err(_) => {
